@@ -175,6 +175,10 @@ func readerPlans(t *tape.Tape, n int, thorough bool) []iosim.Plan {
 	for i := 0; i < 3; i++ {
 		plans = append(plans, iosim.Plan{Kind: []iosim.Kind{iosim.ErrAt, iosim.ErrWithByte}[t.Draw(2)], K: t.Draw(n + 1), Timeout: true})
 	}
+	// io.ErrUnexpectedEOF in the middle of the text (sticky)
+	for i := 0; i < 2; i++ {
+		plans = append(plans, iosim.Plan{Kind: []iosim.Kind{iosim.ErrAt, iosim.ErrWithByte}[t.Draw(2)], K: t.Draw(n + 1), Unexpected: true})
+	}
 	for i := 0; i < 3; i++ {
 		plans = append(plans, iosim.Plan{Kind: iosim.ZeroReads, K: t.Draw(n + 1), M: 1 + t.Draw(3)})
 	}
